@@ -144,7 +144,16 @@ def run(ctx):
             for i, t in enumerate(items):
                 if t[0] == "R" and len(t) == 3:
                     n, tok = t[1], t[2]
-                    ok = any(u[0] == "if" and f"len({tok})" in u[1] and n in u[1] and ("<" in u[1] or "!=" in u[1]) and u[2] and u[2][-1][0] == "raise" for u in items[i + 1 :])
+                    def checked(u):
+                        if u[0] != "if" or f"len({tok})" not in u[1] or n not in u[1]:
+                            return False
+                        then_, else_ = u[2], (u[3] if len(u) > 3 else [])
+                        short_when_true = ("<" in u[1] and "<=" not in u[1]) or "!=" in u[1]
+                        short_when_false = "==" in u[1] or ">=" in u[1]
+                        arm = then_ if short_when_true else (else_ if short_when_false else None)
+                        return bool(arm) and arm[-1][0] == "raise"
+
+                    ok = any(checked(u) for u in items[i + 1 :])
                     ctx.check("C06.R3", f"BLOCK_READERS[{codec}]: read of {n} bytes is length-checked", ok, f.where(), f"{f.qualname}: R[{n}] unchecked", "a short payload read is not detected before the payload is decoded")
 
     # ---- R4 sync on every round --------------------------------------------------------
